@@ -17,6 +17,7 @@ def judge(specs, links, order, link_order, cache=True):
     bad = []
     sp = {s[0]: s for s in specs}
     t_start = min(s[3] for s in specs)
+    published = {(n, o): v for n, c in comps.items() for o, v in c.published.items()}
     if out[0] == "hang":
         bad.append(("connect_does_not_terminate", f"more than {cnode.World.cap} component connect calls"))
     elif out[0] == "exc":
@@ -47,7 +48,7 @@ def judge(specs, links, order, link_order, cache=True):
                             if k not in smeta or smeta[k] != v:
                                 bad.append(("input_info_differs_from_exchanged", f"{n}.{i} has {k}={v!r}, source {src} has {smeta.get(k)!r}"))
                     d = c.connector.in_data.get(i)
-                    want = cnode.expected_value(specs, links, n, i)
+                    want = cnode.expected_value(specs, links, n, i, None, published)
                     if d is None or not np.isclose(float(d.magnitude.ravel()[0]), want):
                         bad.append(("initial_pull_value", f"{n}.{i} got {None if d is None else float(d.magnitude.ravel()[0])} want {want}"))
                 for o, _im, _dm in sp[n][2]:
@@ -57,6 +58,10 @@ def judge(specs, links, order, link_order, cache=True):
                         continue
                     if not all(x in times for x in need):
                         bad.append(("initial_publication_times", f"{n}.{o} published at {times}, needed {need}"))
+                    if _dm == "refine":  # everything the output holds after connect is the value of the call that published it
+                        held = sorted({float(d.magnitude.ravel()[0]) for _t, d in c.outputs[o].data})
+                        if held != [published.get((n, o))]:
+                            bad.append(("initial_publication_is_not_the_value_handed_in_last", f"{n}.{o} holds {held}, the publishing call handed in {published.get((n, o))}"))
     for x in cnode.World.early[:1]:
         bad.append(("connected_while_consumer_exchange_outstanding", f"{x[0]} reported CONNECTED although {x[2]}.{x[3]} had not exchanged its metadata with {x[0]}.{x[1]}"))
     # per-call status rule (every connect call of every component)
@@ -244,6 +249,26 @@ def single_slot_shapes(n, offsets, max_ext=99):
                 yield specs, links
 
 
+def refine_shapes(three=True):
+    """producers whose initial state is still improving while they wait: every connect call hands in a newer value, the value of the
+    call that publishes is the one every consumer must see (a value waiting in the connector's cache is overwritten)"""
+    def sub(specs, which):
+        return [(s[0], s[1], [(o[0], o[1], "refine" if (o[2] == "const" and (s[0], o[0]) in which) else o[2]) for o in s[2]], s[3]) for s in specs]
+
+    gens = [single_slot_shapes(2, lambda n: [(0, 0), (0, 1), (1, 0), (2, 0)]), trunk_shapes(), staged_shapes(), tagged_shapes()]
+    if three:
+        gens.append(single_slot_shapes(3, lambda n: [(0, 0, 0), (1, 0, 0)], max_ext=1))
+    for gen in gens:
+        for specs, links in gen:
+            consts = [(s[0], o[0]) for s in specs for o in s[2] if o[2] == "const"]
+            consts = [c for c in consts if any(l[0] == c for l in links)]
+            if not consts:
+                continue
+            yield sub(specs, set(consts)), links
+            if len(consts) > 1:
+                yield sub(specs, {consts[0]}), links
+
+
 def two_slot_shapes():
     """producer X with two outputs, consumer Y with two inputs (all slot declaration orders), optional feedback Y.o -> X.i and a third party"""
     for oa, ob in itertools.product(("decl", "open", "arg"), repeat=2):
@@ -348,6 +373,7 @@ def run(tier, seed, agg):
     shapes += list(trunk_shapes())
     shapes += list(staged_shapes())
     shapes += list(tagged_shapes())
+    shapes += list(refine_shapes(three=not q))
     cases = [dict(shapes=shapes[i : i + 40], lo_mode="two" if q else "all") for i in range(0, len(shapes), 40)]
     # the same with ConnectHelper(cache=False): the harness components hand in everything they can on every call, so nothing may depend on the cache
     nocache = list(single_slot_shapes(2, lambda n: [(0, 0), (1, 0)])) + list(two_slot_shapes()) + list(stuck_plus_arg_shapes())
